@@ -1,4 +1,6 @@
 import KdVerif.Proofs.TraceCodes
+import KdVerif.Model.PyIRTc
+import KdVerif.Gen.PyIRTc
 /-
   C19 — a code-table text maps every "hex-id name" line; a supplied table is honoured.
 
@@ -324,5 +326,24 @@ example : nameColumn [(0x1234560, "BSC_read")] 0x40c000c = "0x40c000c"
 example : Rekeys (· + 0x100) (fun e => { e with eventid := e.eventid + 0x100, debugid := e.debugid + 0x100 })
     ∧ (∀ a b : Nat, a + 0x100 = b + 0x100 → a = b) :=
   ⟨fun _ => ⟨rfl, rfl, rfl⟩, fun _ _ h => by omega⟩
+
+/-! ### Translation tie: the source text of `from_trace_codes_text`
+
+  `tools/gen_pyir_tc.py` (pure `ast`) reads the one-expression function as a SHAPE (`PyIRTc.CodesFn`: lines by
+  `str.splitlines()`, tokens by `str.split()`, key `int(s[0], 16)` evaluated first, value `s[1]`) into
+  `Gen/PyIRTc.lean` on every run; `PyIRTc.run` interprets a shape. -/
+
+/-- **The translated source has the shape the model was written for**, and the translator met nothing else. -/
+theorem source_is_expected_shape : Gen.PyIRTc.codesFn = PyIRTc.expected ∧ Gen.PyIRTc.notes = [] := by decide
+
+/-- **`from_trace_codes_text`, interpreted, is `parseCodes`** — for every text: the subject of `parse_render`,
+    `short_line_raises`, `first_bad_line_raises` … is the translated source. -/
+theorem from_trace_codes_text_ir_eq_model (text : String) :
+    PyIRTc.run Gen.PyIRTc.codesFn text.toList = parseCodes text := by
+  rw [source_is_expected_shape.1]; exact PyIRTc.run_expected text.toList
+
+/-- non-vacuity: the generated shape, interpreted, reads a two-line table, later line winning -/
+example : PyIRTc.run Gen.PyIRTc.codesFn "0x40c0548\tBSC_stat64\n40C0548 other #c\n0x1 x".toList =
+    .ok [(0x40c0548, "other"), (1, "x")] := by decide +kernel
 
 end KdVerif.C19
